@@ -28,18 +28,26 @@ RULE = ("(read, variant) pairs of error-free reads (exact copies of a haplotype,
         "start/end, mode) or distinct synthetic input")
 MANIFEST = dict(
     text="Lean 4 theorems about a hand-written model of the CIGAR/variant lock-step walk, the CIGAR split and prefix "
-         "arithmetic, the re-alignment decision and the no-reference detector (walk = per-position coordinate map; "
-         "split re-assembles the CIGAR; prefix lengths = consumed query/reference bases; strictly smaller edit distance "
-         "=> that allele, tie => none, query = padded allele => that allele; for an error-free read whose window is "
-         "free of other non-reference alleles the extracted window IS the padded allele (SNV/MNP), so re-alignment "
-         "returns the carried allele; no-reference SNV detection returns the carried allele); the model is tied to the "
+         "arithmetic, the re-alignment decision and the no-reference detector: the walk equals the alignment's "
+         "per-position coordinate map (each variant in M/=/X, D or at an I boundary exactly once, in order; none left/right "
+         "of the span or inside N; the split re-assembles the CIGAR and its left part has the announced reference/query "
+         "lengths); prefix lengths = bases of the longest column prefix ending after the k-th reference base (stops at N, "
+         "truncated at the read end); strictly smaller edit distance => that allele, any returned allele is strictly "
+         "closest, tie => none, query = padded allele => that allele; for an error-free read whose +-overhang window "
+         "contains no other operation (or is cut by the read end) the extracted window IS left_pad+allele+right_pad for "
+         "SNV/MNP, hence re-alignment returns the carried allele; the no-reference state machine on SNVs returns exactly "
+         "the call demanded by the aligned query base for every CIGAR over the nine operators. The model is tied to the "
          "working tree by exact comparison of every modelled function on synthetic inputs and on every alignment of "
-         "generated BAMs, and a ground-truth oracle checks the property itself on ReadSetReader.read",
-    design_ref="DESIGN.md §5 C06, §6 F11 (+F12, F13 found here)",
+         "generated BAMs; a ground-truth oracle checks the property itself on ReadSetReader.read (with and without "
+         "reference)",
+    design_ref="DESIGN.md §5 C06, §6 F11 (+F12..F16 found by this check, fixes/F12..F16.patch)",
     note="trusted: Lean kernel, axioms ⊆ {propext, Classical.choice, Quot.sound}; the hand-written model (tied by "
-         "differential testing); edit_distance = Levenshtein is C19's claim; the window lemma is proved for SNV/MNP "
-         "(indels: differential + ground truth only); affine-gap and k-merald re-alignment are not modelled",
-    technique="Lean 4 proof (walker/prefix/split/decision/window lemma) + differential correspondence + ground-truth oracle",
+         "differential testing); edit_distance = Levenshtein is C19's claim; the window lemma is proved for SNV/MNP only "
+         "(insertions/deletions: differential + ground truth); the no-reference theorem covers SNVs (unshiftable indels: "
+         "differential + ground truth); affine-gap and k-merald re-alignment are not modelled; the model describes the "
+         "code with fixes F12-F16 applied (each defect also modelled as-is, selectable, with a Lean witness)",
+    technique="Lean 4 proof (walker/prefix/split/decision/window lemma/no-reference SNV machine) + differential "
+              "correspondence + ground-truth oracle",
 )
 ASSUMPTIONS = [
     "default re-alignment only (no --use-affine / k-merald); overhang 10 in the pipeline stream, 0–12 in synthetic calls",
@@ -614,6 +622,12 @@ def oracle(ctx, case, label, mode, hv, listed, by_name, got, per_aln, valid=None
                             tuple(v.pos - m["start"] for m in mates)))
             if g == a:
                 continue
+            if g is None and len(mates) > 1:
+                # mates that disagree make the merged read drop the position: judge the mate that saw the other allele
+                seen = [per_aln.get((name, m["mate"] == 1), {}).get(v.pos) for m in mates if m["truth"][i]["full"]]
+                wrong = [d for d in seen if d is not None and d != a]
+                if wrong:
+                    g = wrong[0]
             if g is None:
                 # not found
                 found_by_mate = any(per_aln.get((name, m["mate"] == 1), {}).get(v.pos) == a for m in mates if m["truth"][i]["full"])
@@ -707,7 +721,7 @@ def run(ctx):
         replay_case(ctx, c, "corpus:" + name)
     q = ctx.quick
     s = ctx.scale
-    n_syn = (2500 if q else 20000) * s
+    n_syn = (2500 if q else 40000) * s
     for mk, chk in ((gen_iter_case, check_iter), (gen_prefix_case, check_prefix_split), (gen_realign_case, check_realign),
                     (gen_noref_case, check_noref), (gen_group_case, check_group)):
         cases = [mk(rng) for _ in range(n_syn if mk is not gen_group_case else n_syn // 3)]
@@ -719,7 +733,7 @@ def run(ctx):
         exhaustive_prefix(ctx, 3, 2, (0, 1, 2, 3, 4, 5, 7))
         ctx.extra["exhaustive_note"] = ("walker: all CIGARs of <= 3 ops over all nine operators (<= 4 ops over MIDNS), lengths 1-2, "
                                         "a variant at every reference position; prefix/split: <= 3 ops, every k")
-    n_scn = (120 if q else 1200) * s
+    n_scn = (120 if q else 3000) * s
     for k in range(n_scn):
         r = rng.random()
         stream = "isolated" if r < 0.55 else ("close" if r < 0.85 else "twins")
